@@ -23,9 +23,8 @@ open RdfModel RdfModel.C04
 
 variable {β : Type} [DecidableEq β]
 
-export Proofs.C03 (Shape labelOf AllDistinct TablesLabel)
 
-/-- Everything below about a result `out` is derived from `Shape T qs out`, which holds for every
+/-- Everything below about a result `out` is derived from `Proofs.C03.Shape T qs out`, which holds for every
     result of the model on well-formed input:
     * `lines`  : the lines are the sorted list of `⟨original index, canonical line of the quad
                  relabelled by the issued map⟩`;
@@ -33,15 +32,15 @@ export Proofs.C03 (Shape labelOf AllDistinct TablesLabel)
       injective, is what `GetBlankNodeIdentifier` answers, and its values are `c14n<decimal>`. -/
 theorem shape_of_result (T : NQ.Tables) (hT : TablesCanon T) (H : Str → Str) (lim : Rdfcanon.Limits)
     (ord : List β → List β) (hord : OrdOK ord) (qs : List (Quad β)) (hwf : ∀ q ∈ qs, WFQuad T q)
-    (out : Rdfcanon.Out β) (h : Rdfcanon.canon T H lim ord qs = .ok out) : Shape T qs out :=
+    (out : Rdfcanon.Out β) (h : Rdfcanon.canon T H lim ord qs = .ok out) : Proofs.C03.Shape T qs out :=
   Proofs.C03.shape_of_ok T hT H lim ord hord qs hwf out h
 
 /-- **issued_map_is_renaming**: the output is the sorted list of the input quads relabelled by the
     issued identifier map; that map is defined and injective on the blank nodes of the dataset and is
     what `GetBlankNodeIdentifier` returns. -/
 theorem issued_map_is_renaming {T : NQ.Tables} {qs : List (Quad β)} {out : Rdfcanon.Out β}
-    (hs : Shape T qs out) :
-    out.lines.map (·.encoded) = sortStr (qs.map (Spec.RDFC10.nquad (labelOf out))) ∧
+    (hs : Proofs.C03.Shape T qs out) :
+    out.lines.map (·.encoded) = sortStr (qs.map (Spec.RDFC10.nquad (Proofs.C03.labelOf out))) ∧
     (∀ q ∈ qs, ∀ b ∈ Spec.RDFC10.quadBnodes q, (assoc out.issued b).isSome) ∧
     (∀ b b' v, assoc out.issued b = some v → assoc out.issued b' = some v → b = b') ∧
     (∀ b v, assoc out.issued b = some v → out.identifier b = v) :=
@@ -55,31 +54,31 @@ theorem line_is_encoded_quad (T : NQ.Tables) (hT : TablesCanon T) (lab : β → 
 /-- **original_index_correct**: every output line carries the position of the input quad it is the
     relabelling of, and the positions are a permutation of `0 … n-1`. -/
 theorem original_index_correct {T : NQ.Tables} {qs : List (Quad β)} {out : Rdfcanon.Out β}
-    (hs : Shape T qs out) :
-    (∀ l ∈ out.lines, ∃ q, qs[l.idx]? = some q ∧ l.encoded = Spec.RDFC10.nquad (labelOf out) q) ∧
+    (hs : Proofs.C03.Shape T qs out) :
+    (∀ l ∈ out.lines, ∃ q, qs[l.idx]? = some q ∧ l.encoded = Spec.RDFC10.nquad (Proofs.C03.labelOf out) q) ∧
     (out.lines.map (·.idx)).Perm (List.range qs.length) :=
   Proofs.C03.original_index hs
 
 /-- **lines_sorted_unique**, first half: the lines are in code-point order … -/
-theorem lines_sorted {T : NQ.Tables} {qs : List (Quad β)} {out : Rdfcanon.Out β} (hs : Shape T qs out) :
+theorem lines_sorted {T : NQ.Tables} {qs : List (Quad β)} {out : Rdfcanon.Out β} (hs : Proofs.C03.Shape T qs out) :
     (out.lines.map (·.encoded)).Pairwise (fun a b => strLe a b = true) :=
   Proofs.C03.lines_sorted hs
 
 /-- … second half: strictly, for a duplicate-free sequence of quads the decoder reads back (C01's
     well-formedness: scalar values, IRIs `urlOk` accepts, language tags of the N-Quads grammar). -/
-theorem lines_sorted_unique (T : NQ.Tables) (hT1 : C01.TablesOK T) (hT : TablesCanon T) (hL : TablesLabel T)
-    (urlOk : List Nat → Bool) (qs : List (Quad β)) (out : Rdfcanon.Out β) (hs : Shape T qs out)
+theorem lines_sorted_unique (T : NQ.Tables) (hT1 : C01.TablesOK T) (hT : TablesCanon T) (hL : Proofs.C03.TablesLabel T)
+    (urlOk : List Nat → Bool) (qs : List (Quad β)) (out : Rdfcanon.Out β) (hs : Proofs.C03.Shape T qs out)
     (hwf : ∀ q ∈ qs, WFQuad T q) (hwf1 : ∀ q ∈ qs, C01.WFQuad urlOk q) (hnd : qs.Nodup) :
     (out.lines.map (·.encoded)).Pairwise (fun a b => strLt a b = true) :=
   Proofs.C03.lines_strict T hT1 hT hL urlOk qs out hs hwf hwf1 hnd
 
 /-- **parses_back**: the N-Quads decoder (model, C01) reads the canonical bytes back, cleanly, as a
     reordering of the input quads relabelled by the (injective) issued map — an isomorphic dataset. -/
-theorem parses_back (T : NQ.Tables) (hT1 : C01.TablesOK T) (hT : TablesCanon T) (hL : TablesLabel T)
-    (urlOk : List Nat → Bool) (qs : List (Quad β)) (out : Rdfcanon.Out β) (hs : Shape T qs out)
+theorem parses_back (T : NQ.Tables) (hT1 : C01.TablesOK T) (hT : TablesCanon T) (hL : Proofs.C03.TablesLabel T)
+    (urlOk : List Nat → Bool) (qs : List (Quad β)) (out : Rdfcanon.Out β) (hs : Proofs.C03.Shape T qs out)
     (hwf : ∀ q ∈ qs, WFQuad T q) (hwf1 : ∀ q ∈ qs, C01.WFQuad urlOk q) :
     ∃ qs' : List (Quad β), qs'.Perm qs ∧
-      NQ.run T urlOk .eof true out.bytes = (qs'.map (Quad.map (labelOf out)), .clean) :=
+      NQ.run T urlOk .eof true out.bytes = (qs'.map (Quad.map (Proofs.C03.labelOf out)), .clean) :=
   Proofs.C03.parses_back T hT1 hT hL urlOk qs out hs hwf hwf1
 
 /-- **first_degree_perm**: Hash First Degree Quads does not depend on the order of the quads. -/
@@ -114,12 +113,12 @@ theorem first_degree_model (T : NQ.Tables) (hT : TablesCanon T) (H : Str → Str
     order of Go's maps and every limit configuration; the issued maps correspond through `σ`. -/
 theorem canon_invariant_simple {γ : Type} [DecidableEq γ] (T : NQ.Tables) (hT : TablesCanon T)
     (H : Str → Str) (σ : β → γ) (hσ : Function.Injective σ) (qs : List (Quad β)) (qs' : List (Quad γ))
-    (hp : qs'.Perm (qs.map (Quad.map σ))) (hwf : ∀ q ∈ qs, WFQuad T q) (hd : AllDistinct H qs)
+    (hp : qs'.Perm (qs.map (Quad.map σ))) (hwf : ∀ q ∈ qs, WFQuad T q) (hd : Proofs.C03.AllDistinct H qs)
     (lim lim' : Rdfcanon.Limits) (ord : List β → List β) (ord' : List γ → List γ)
     (hord : OrdOK ord) (hord' : OrdOK ord') :
     ∃ out out', Rdfcanon.canon T H lim ord qs = .ok out ∧ Rdfcanon.canon T H lim' ord' qs' = .ok out' ∧
       out.bytes = out'.bytes ∧
-      (∀ b ∈ qs.flatMap Spec.RDFC10.quadBnodes, labelOf out' (σ b) = labelOf out b) :=
+      (∀ b ∈ qs.flatMap Spec.RDFC10.quadBnodes, Proofs.C03.labelOf out' (σ b) = Proofs.C03.labelOf out b) :=
   Proofs.C03.canon_invariant_simple T hT H σ hσ qs qs' hp hwf hd lim lim' ord ord' hord hord'
 
 /-- **limit_never_wrong**: on well-formed input the only outcomes are one of the two limit errors or
@@ -128,7 +127,7 @@ theorem canon_invariant_simple {γ : Type} [DecidableEq γ] (T : NQ.Tables) (hT 
 theorem limit_never_wrong (T : NQ.Tables) (hT : TablesCanon T) (H : Str → Str) (lim : Rdfcanon.Limits)
     (ord : List β → List β) (hord : OrdOK ord) (qs : List (Quad β)) (hwf : ∀ q ∈ qs, WFQuad T q) :
     (∃ l, Rdfcanon.canon T H lim ord qs = .limit l) ∨
-    (∃ out, Rdfcanon.canon T H lim ord qs = .ok out ∧ Shape T qs out ∧
+    (∃ out, Rdfcanon.canon T H lim ord qs = .ok out ∧ Proofs.C03.Shape T qs out ∧
       ∀ perms, PermsAgree lim.maxPermutations perms → ∀ fuel, lim.maxRecursionDepth + 1 ≤ fuel →
         Spec.RDFC10.canonFuel H ord perms true fuel qs = some (specView out)) :=
   Proofs.C03.limit_never_wrong T hT H lim ord hord qs hwf
@@ -155,21 +154,23 @@ open RdfModel.C04.Witness
 /-- The witness dataset of `Props/C04.lean` also satisfies C01's well-formedness (any `urlOk` that
     accepts its four IRIs; here: all). -/
 theorem wf1 : ∀ q ∈ quads, C01.WFQuad (fun _ => true) q := by
+  have sc : ∀ (s : List Nat), s.all isScalarB = true → C01.Scalars s := C01.Witness.scalars
   intro q hq
   simp only [quads, List.mem_cons, List.not_mem_nil, or_false] at hq
   rcases hq with rfl | rfl | rfl
-  · exact ⟨trivial, ⟨by decide, rfl⟩, trivial, by intro g hg; cases hg; trivial⟩
-  · exact ⟨trivial, ⟨by decide, rfl⟩, ⟨by decide, ⟨by decide, rfl⟩, rfl, by decide⟩, by intro g hg; cases hg⟩
-  · exact ⟨trivial, ⟨by decide, rfl⟩, ⟨by decide, ⟨by decide, rfl⟩, by decide⟩,
-      by intro g hg; cases hg; exact ⟨by decide, rfl⟩⟩
+  · exact ⟨trivial, ⟨sc _ (by decide), rfl⟩, trivial, by intro g hg; cases hg; trivial⟩
+  · exact ⟨trivial, ⟨sc _ (by decide), rfl⟩,
+      ⟨sc _ (by decide), ⟨sc _ (by decide), rfl⟩, rfl, by decide⟩, by intro g hg; cases hg⟩
+  · exact ⟨trivial, ⟨sc _ (by decide), rfl⟩, ⟨sc _ (by decide), ⟨sc _ (by decide), rfl⟩, by decide⟩,
+      by intro g hg; cases hg; exact ⟨sc _ (by decide), rfl⟩⟩
 
 theorem nodup : quads.Nodup := by decide
 
 /-- A dataset with two blank nodes whose first-degree hashes differ under the identity "hash". -/
 def two : List (Quad Nat) := [⟨.bnode 0, p, .bnode 1, none⟩]
 
-theorem two_allDistinct : AllDistinct (fun s => s) two := by
-  simp [AllDistinct, two, Spec.RDFC10.bnodeToQuads, Spec.RDFC10.quadBnodes, Spec.RDFC10.bnodeOf, addToMap,
+theorem two_allDistinct : Proofs.C03.AllDistinct (fun s => s) two := by
+  simp [Proofs.C03.AllDistinct, two, Spec.RDFC10.bnodeToQuads, Spec.RDFC10.quadBnodes, Spec.RDFC10.bnodeOf, addToMap,
     Spec.RDFC10.hashFirstDegree, getList, sortStr, Spec.RDFC10.nquad, Spec.RDFC10.term]
 
 end Witness
